@@ -1,0 +1,11 @@
+//! Verification hooks - DO NOT USE. Only compiled with the internal `__verif` feature.
+#![allow(missing_docs)]
+use std::sync::Mutex;
+
+/// (actor id, command name, state kind before, state kind after | "Stopped")
+pub type Observer = Box<dyn FnMut(usize, &str, &str, &str) + Send>;
+static OBSERVER: Mutex<Option<Observer>> = Mutex::new(None);
+pub fn set_observer(o: Option<Observer>) { *OBSERVER.lock().unwrap() = o; }
+pub(crate) fn observe(id: usize, cmd: &str, before: &str, after: &str) {
+    if let Some(f) = OBSERVER.lock().unwrap().as_mut() { f(id, cmd, before, after) }
+}
